@@ -597,3 +597,30 @@ Theorem log_flushes_bounded_by_bytes : forall evs st,
   (N.of_nat (List.length f) * MiB + ls_size s <= ls_size st + logs_bytes evs)%N.
 Proof. exact decode_logs_flush_bytes. Qed.
 Print Assumptions log_flushes_bounded_by_bytes.
+
+(* ---- the first session's hand-written dispatch is the regenerated one --------------------------- *)
+
+(* model/IngestRobust.v decides by hand which decoder a Content-Type selects on /ingest (ingest_select), the Zipkin
+   routes (a descriptor bit = Content-Type starts with "ndjson") and the Loki push route (protobuf or JSON), and which
+   Content-Encoding values pass: these are exactly the dispatch over the route table that equals the regenerated one,
+   and the case list of the switch in WithOverallContextMiddleware (regenerated), for EVERY header string. *)
+Theorem hand_written_dispatch_is_the_route_table :
+  routes_eqb gen_routes routes_model = true /\
+  (forall ct, route_dispatch (route_of "PushProfileV2") ct
+              = match ingest_select ct with
+                | Some IPMultipart => Some "UnmarshalProfileProtoV2"%string
+                | Some IPBinary => Some "UnmarshalBinaryStreamProfileProtoV2"%string
+                | None => None
+                end) /\
+  (forall ct, route_dispatch (route_of "PushV2") ct
+              = Some (if prefix "ndjson" ct then "UnmarshalZipkinNDJSONV2" else "UnmarshalZipkinJSONV2")%string) /\
+  (forall ct, route_dispatch (route_of "PushStreamV2") ct
+              = Some (if prefix "application/x-protobuf" ct then "UnmarshalProtoV2" else "DecodePushRequestStringV2")%string) /\
+  gen_content_encoding_default_400 = true /\
+  (forall ce gz, existsb (String.eqb ce) gen_content_encodings = false <-> content_encoding ce gz = CeStatus C4xx).
+Proof.
+  split; [vm_compute; reflexivity|]. split; [exact ingest_select_is_table|]. split; [exact zipkin_nd_is_table|].
+  split; [exact loki_push_is_table|]. split; [vm_compute; reflexivity|].
+  intros ce gz. apply content_encoding_is_source_switch. vm_compute. reflexivity.
+Qed.
+Print Assumptions hand_written_dispatch_is_the_route_table.
